@@ -192,8 +192,8 @@ plan("C08", Q, seed_q + weak_q + [R("full-dbg", "cleaner", 2, 3, depth=8, action
 plan("C08", T, seed_t + weak_t + [R("full-rel", "cleaner", 2, 3, depth=11, action_menu=ACT_WEAK, max_seconds=MID)] + cyclic_t)
 
 # ---- C09 counts and side record --------------------------------------------------------------------------------------
-plan("C09", Q, [R("full-dbg", "weak", 1, 2, w=3)] + weak_q + cyclic_q)
-plan("C09", T, [R("full-dbg", "weak", 1, 3, w=3), R("full-rel", "weak", 2, 3, depth=14, w=3, max_seconds=MID)] + weak_t + cyclic_t + cleaner_t[:1])
+plan("C09", Q, [R("full-dbg", "weak", 1, 2, w=3), R("full-dbg", "weakfin", 2, 3, depth=9, w=1, fin_menu="0", drop_menu="0,9")] + weak_q + cyclic_q)   # 9 = a destructor clones the Weak in its own cell
+plan("C09", T, [R("full-rel", "weakfin", 2, 3, depth=12, w=1, fin_menu="0,6", drop_menu="0,1,9", max_seconds=MID), R("full-dbg", "weak", 1, 3, w=3), R("full-rel", "weak", 2, 3, depth=14, w=3, max_seconds=MID)] + weak_t + cyclic_t + cleaner_t[:1])
 
 # ---- C10 cleaning actions ---------------------------------------------------------------------------------------------
 plan("C10", Q, [
@@ -219,7 +219,8 @@ plan("C10", T, [
 
 # ---- C11 introspection counters ----------------------------------------------------------------------------------------
 plan("C11", Q, core_q + auto_q + cyclic_q + seed_q[:1] + [fin_q(FIN_RELEASE, depth=12), R("full-dbg", "weak", 2, 3, depth=12),
-                R("full-dbg", "core", 2, 3, faults=1)])      # "always": the counters are also exact after a caught callback panic
+                R("full-dbg", "core", 2, 3, faults=1),       # "always": the counters are also exact after a caught callback panic
+                R("full-dbg", "fin", 2, 3, depth=9, fin_menu="0,4,9")])   # a refused collect_cycles() from a callback must not count
 plan("C11", T, core_t + auto_t + cyclic_t + seed_t[:2] + [fin_t(FIN_RELEASE)] + weak_t[1:5] + cleaner_t + [R("full-dbg", "core", 2, 3, faults=1), R("full-rel", "fin", 2, 3, depth=11, faults=1, fin_menu=FIN_MIX, max_seconds=MID), R("full-rel", "dtor", 2, 3, depth=11, faults=1, max_seconds=MID)])
 
 # ---- C12 phases, no nesting ----------------------------------------------------------------------------------------------
